@@ -213,5 +213,5 @@ func runC07(t *testing.T, sci interface{}) *Outcome {
 }
 
 func TestC07(t *testing.T) {
-	drive(t, &PropDef{ID: "C07", Gen: genC07, Decode: decodeInto[C07Scenario], Run: runC07, Checks: 100})
+	drive(t, &PropDef{ID: "C07", Gen: genC07, Decode: decodeInto[C07Scenario], Run: runC07, Checks: 100, CrashCapture: true})
 }
